@@ -23,6 +23,7 @@ max_frame_len) is lifted — this instance is refuted on the pinned tree and rep
 finding (documented 'no limit', actual 8 MiB). Confinement: no path from the RPC read/write functions
 reaches Connection::close / Endpoint::close, and codec errors leave do_rpc / do_handle only through
 `?` (the RPC's own Result).
+One layer out: Config.max_frame_size is never rewritten after the Config was built and its accessor is a pure projection.
 """
 TRUSTED = ["tokio-util enforces max_frame_len on both encode and decode (n > max ⇒ error)", "dropping anemo's SendStream wrapper resets the stream (C12)"]
 NOT_DECIDED = ["exact boundary inside tokio-util (> vs >=)", "header-vs-body accounting", "latency of the failure"]
